@@ -14,3 +14,6 @@ open GoSQLXModel
 #print axioms Props.C10.gen_shared_guarded
 #print axioms Props.C10.totals_exact
 #print axioms Props.C10.gen_sizes_are_argument_lengths
+#print axioms Metrics.sequential_completes
+#print axioms Props.C10.recorder_alone_finishes
+#print axioms Props.C10.finishing_schedule_exists
